@@ -177,6 +177,19 @@ var (
 	planExit = func(x common.ValidatorIndex, cur common.Epoch) chain.BlockPlan {
 		return chain.BlockPlan{Exits: []chain.ExitPlan{{Validator: x}}}
 	}
+	planBLS = func(x common.ValidatorIndex, cur common.Epoch) chain.BlockPlan {
+		return chain.BlockPlan{BLSChanges: []chain.BLSChangePlan{{Validator: x}}}
+	}
+	// 0x00 ++ hash(withdrawal pubkey)[1:]  ->  0x01 ++ the same 31 bytes: from_bls_pubkey still hashes to the rest
+	// of the credentials and the signature is valid, only the prefix condition of the BLS change fails
+	editEth1Prefix = func(v common.Validator, cur common.Epoch) error {
+		wc, err := v.WithdrawalCredentials()
+		if err != nil || wc[0] != common.BLS_WITHDRAWAL_PREFIX {
+			return fmt.Errorf("not applicable")
+		}
+		wc[0] = common.ETH1_ADDRESS_WITHDRAWAL_PREFIX
+		return v.SetWithdrawalCredentials(wc)
+	}
 	editWdNow    = func(v common.Validator, cur common.Epoch) error { return setEpochs(v, nil, nil, ep(cur-2), ep(cur)) }
 	editWdNext   = func(v common.Validator, cur common.Epoch) error { return setEpochs(v, nil, nil, ep(cur-1), ep(cur+1)) }
 	editActNext  = func(v common.Validator, cur common.Epoch) error { return setEpochs(v, ep(0), ep(cur+1), nil, nil) }
@@ -205,12 +218,59 @@ var editVariants = []editVariant{
 	{"exit-of-future-activation", "exit_status", 0, false, editActNext, planExit, nil, nil, false, false},
 	{"exit-of-exited-validator", "exit_status", 1, false, editExited, planExit, nil, nil, false, false},
 	{"exit-already-initiated", "exit_status", 0, false, editExiting, planExit, nil, nil, false, false},
+	{"bls-change-credentials-not-bls-prefix", "bls_change", 0, false, editEth1Prefix, planBLS, nil, nil, false, false},
 	{"header-proposer-slashed", "header", 0, true, editSlashedP, nil, nil, nil, false, false},
 	{"deposit-count-below-index-no-deposits", "deposit_count_underflow", 0, true, nil, nil, editCountBelowIndex, nil, false, false},
 	{"deposit-count-below-index-one-deposit", "deposit_count_underflow", 0, true, nil, nil, editCountBelowIndex, appendDeposit, false, false},
 	{"deposit-count-below-index-root-commits-more", "deposit_count_underflow", 0, true, nil, nil, editCountBelowIndexRootCommitsMore, nil, false, false},
 	{"block-slot-equals-state-slot", "block_slot_not_after_state_slot", 0, true, nil, nil, advanceTo(0), nil, true, true},
 	{"block-slot-before-state-slot", "block_slot_not_after_state_slot", 0, true, nil, nil, advanceTo(1), nil, true, true},
+}
+
+// engineVariants: the honest block, unchanged, while the execution engine answers "invalid" (or fails) at one of
+// the calls of verify_and_notify_new_payload: process_execution_payload asserts the engine's verdict.
+var engineVariants = []struct {
+	name, method string
+	verdict      chain.EngineVerdict
+	min          chain.Fork
+}{
+	{"payload-engine-invalid-block-hash", chain.EngIsValidBlockHash, chain.EngineInvalid, chain.Bellatrix},
+	{"payload-engine-invalid-payload", chain.EngNotifyNewPayload, chain.EngineInvalid, chain.Bellatrix},
+	{"payload-engine-error", chain.EngNotifyNewPayload, chain.EngineError, chain.Bellatrix},
+	{"payload-engine-invalid-versioned-hashes", chain.EngIsValidVersionedHashes, chain.EngineInvalid, chain.Deneb},
+}
+
+func (o *observer) engineVariant(c *chain.Chain, env *common.BeaconBlockEnvelope, fork chain.Fork) {
+	eng := c.Engine
+	p := chain.PayloadOf(env.Body)
+	if eng == nil || fork < chain.Bellatrix || p == nil || p.BlockHash == (common.Root{}) {
+		return
+	}
+	// the least exercised one on this fork
+	best := -1
+	for i, v := range engineVariants {
+		if fork >= v.min && (best < 0 || covered["v:"+v.name+"_"+fork.String()] < covered["v:"+engineVariants[best].name+"_"+fork.String()]) {
+			best = i
+		}
+	}
+	v := engineVariants[best]
+	if covered["v:"+v.name+"_"+fork.String()] >= 3 && o.rng.Intn(4) != 0 {
+		return
+	}
+	venv, err := chain.CloneEnvelope(c.Spec, env)
+	if err != nil {
+		return
+	}
+	eng.Script = func(call *chain.EngineCall) chain.EngineVerdict {
+		if call.Method == v.method {
+			return v.verdict
+		}
+		return chain.EngineValid
+	}
+	defer func() { eng.Script = nil }()
+	o.rec.NegBlock(c.Ctx, c.Spec, c.Epc, c.State, venv, v.name, "payload")
+	covered["payload_"+fork.String()]++
+	covered["v:"+v.name+"_"+fork.String()]++
 }
 
 // runEdited builds and runs one editVariant for the block env (about to be applied on c's head).
@@ -363,6 +423,7 @@ func (o *observer) BeforeBlock(c *chain.Chain, env *common.BeaconBlockEnvelope) 
 			}
 		}
 	}
+	o.engineVariant(c, env, fork)
 	for i := 0; i < o.editsPer; i++ {
 		ev := editVariants[o.nextEdit%len(editVariants)]
 		o.nextEdit++
@@ -474,6 +535,11 @@ func run(rec *beaconrec.Recorder, cf cfg, name string, rng *rand.Rand, perBlock,
 	if c.Engine != nil {
 		eng := c.Engine
 		rec.EngineOK = func() bool {
+			if eng.Script != nil {
+				// an engine variant is running: the engine's answer to verify_and_notify_new_payload is the scripted
+				// one (not valid), whether or not the implementation asked every question
+				return false
+			}
 			calls := eng.Calls()
 			return len(calls) == 0 || calls[len(calls)-1].Verdict == chain.EngineValid
 		}
